@@ -408,6 +408,7 @@ func main() {
 	c := kit.New("C14", "fault_enumeration")
 	c.Rule = "histories of user edits to one Package (Provider, Configuration, Function): source/tag changes incl. rollbacks to earlier digests, revisionHistoryLimit changes (0, raising, lowering, also in the same edit as a source change), activation policy Automatic/Manual with manual activation by the user, pull policy IfNotPresent/Always/Never, the registry moving a tag to another (also an earlier) digest, registry failures, the revision controller flipping revision health; after each edit the real reconciler runs until a reconcile writes nothing (bound 6, sometimes 1-2: the next edit lands early). 9 fixed base histories (quick: all 9 for Provider, one each for Configuration and Function, whose reconciler is the same code; thorough: 9 x 3 kinds): for every reconcile of the fault-free run EVERY API-call index x 6 outcomes (conflict, 500, timeout, crash-before, crash-after, applied-but-504), then fault-free retries to quiescence and the rest of the history; seeded random histories of all three kinds get the same treatment on a seeded sample of fault positions per reconcile. distinct = (history, reconcile, call, outcome); non-trivial = the fault-free run of the history resolved >= 2 digests and contains a rollback or a history-limit change, and the fault was reached. Avoided inputs: unset spec fields (the CRD defaults them), image references sharing their first 12 characters under pull policy Never, digests sharing their first 12 hex characters, paused packages, revisions with finalizers."
 	c.Rule += " Histories with finalizers: the revision controller holds its finalizer on every revision; the user deletes the current / oldest revision (it lingers Terminating) and the finalizer is released by a later step."
+	c.Rule += " " + "A history with revisionHistoryLimit = max int64."
 	c.Assumptions = []string{
 		"sim implements the apiserver rules of DESIGN.md 2.2; reads are linearizable (no stale informer cache)",
 		"one package-manager worker per package; user edits land between reconciles, never inside one",
